@@ -1,4 +1,4 @@
-import AgModel.Proofs.ParentReady
+import AgModel.Proofs.ParentReadyExact
 /-!
 # C07 — parent-ready (property theorems)
 
@@ -6,20 +6,31 @@ Model: `AgModel.ParentReady` (= `parent_ready_tracker.rs` + `parent_ready_state.
 tracker and the pool's pruning in `AgModel.PoolTrack`; tied to the real code by the correspondence run of
 `harness/src/bin/c07.rs` (direct tracker ops, all orders of small mark sets, certificates through a real `PoolImpl`).
 
-Full statement of the property (`ready_iff`, **not proved as a theorem**; it is what the harness oracle evaluates on
-the real code after every operation, for every window start above the root):
+**Main statement (theorems of the second half of this file, over whole runs).**  Runs are lists of `Op`
+(`nf`, `skip`, `fin` = `handle_finalization`, `prune`, `wait`) from `init`; `hist ops` is the ghost history of the marks
+the tracker *accepted* (a mark below the root at the time of the call is ignored by the code and not recorded).
+Premise `SafeRun ops` (decidable on the op list): prune roots are monotone and a slot used as prune root is never —
+before or after — accepted as a skip mark, unless it is the first slot of a window
+(`safeRun_of_roots_never_skipped`: the plain syntactic form implies it).  Under `SafeRun`, for every run:
 
-    for every sequence of marks / finalization events / prunes from `init` that does not skip-mark the slot of a
-    root, and every window start `s > root`:
-      b ∈ parentsReady t s  ↔  b.1 < s ∧ b is marked notar-fallback ∧ ∀ u, b.1 < u < s → u is marked skipped
+* `ready_iff` — for every window start `s ≥ root` and block `b`:
+  `b ∈ parentsReady t s ↔ b.1 < s ∧ b ∈ (hist ops).nf ∧ ∀ u, b.1 < u < s → u ∈ (hist ops).sk`
+  (+ `ready_only_for_live_window_starts`, `order_independent`, `order_independent_perm`);
+* `run_never_panics` — no operation hits `add_to_ready`'s `assert!` (and the forward loops end by `break`, not by
+  fuel: `fwd_exact`); `run_ok_of_single_waits` — no panic at all when each slot is waited for at most once;
+* `announced_once` — the concatenation of all announcement lists of the run has no duplicate;
+  `announce_exact_on_certificate_paths` — `mark_notar_fallback` / `mark_skipped` announce exactly the pairs that
+  enter a ready list in that step (`handle_finalization` announces one highest-slot pair of its batch, by design);
+* `waiter_woken_by_first_ready`, `waiter_means_not_ready` — a waiter is woken exactly by the first parent that becomes
+  ready for its slot.
 
-What is proved below (all for arbitrary tracker states and arbitrary inputs, no bound on slots or list sizes):
-`announce_subset_query_*` (every announced pair is a window start and is answered by the query at once and forever
-after: `Grow.ready`), `marks_never_lost_*`, `ready_lists_stay_duplicate_free_*` (the `assert!` of `add_to_ready` is what
-makes a duplicate a panic: a successful run never holds one), `ready_only_at_window_starts`, `finalization_announces_highest`,
+The premise is necessary: `ready_iff_fails_if_skipped_slot_becomes_root`, `ready_iff_fails_if_root_is_skipped_later`,
+`panic_if_prune_roots_decrease`, `ready_iff_fails_if_prune_roots_decrease` (`decide`d runs, replayed on the real
+tracker by the harness shape `pr-witness`); non-vacuity: `demoRun`.
+
+The first half (one-step lemmas for arbitrary tracker states): `announce_subset_query_*`, `marks_never_lost_*`,
+`ready_lists_stay_duplicate_free`, `ready_only_at_window_starts`, `finalization_announces_highest`,
 `waiter_woken_with_ready_parent`, `wait_*`, `below_root_ignored_*`, `prune_loses_nothing`.
-Missing for `ready_iff`: the invariant that relates each ready entry to the marks between the parent and the window
-(soundness) and the reachability argument through `collect`/`fwd` (completeness).
 -/
 namespace AgModel.ParentReady
 
@@ -155,5 +166,750 @@ example : announcedBy [(markSkipped · 7), (markSkipped · 6), (markSkipped · 5
 /-- a finalization batch keeps only its highest pair -/
 example : announcedBy [(markSkipped · 4), (markSkipped · 5), (markSkipped · 6), (markSkipped · 7),
       (handleFinalization · ⟨some (3, 9), [(2, 8)], []⟩)] = some [[], [], [], [], [(8, (3, 9))]] := by decide
+
+/-! ## Whole runs: exactness (`ready_iff`), panic-freedom, announcements at most once
+
+Operation sequences over the tracker from `init`, with the ghost history `hist ops` of the marks the tracker
+*accepted* (`Proofs/ParentReadyExact.lean`: a mark for a slot below the root at the time of the call is ignored by the
+code and is not recorded). -/
+
+/-- the operations of `ParentReadyTracker` -/
+inductive Op where
+  | nf (b : Nat × Nat)           -- `mark_notar_fallback`
+  | skip (s : Nat)               -- `mark_skipped`
+  | fin (ev : Finality.Event)    -- `handle_finalization`
+  | prune (r : Nat)              -- `prune`
+  | wait (s : Nat)               -- `wait_for_parent_ready`
+deriving DecidableEq, Repr
+
+/-- the two `assert!`s of `parent_ready_state.rs` -/
+inductive Panic where
+  | readyAssert    -- `add_to_ready`: `assert!(!ready_ids.contains(&id))`
+  | waiterAssert   -- `wait_for_parent_ready`: `assert!(maybe_waiter.is_none())`
+deriving DecidableEq, Repr
+
+/-- one operation: new tracker, announced `(slot, parent)` pairs, wake-ups -/
+def applyOp (t : Tracker) : Op → Except Panic (Tracker × List (Nat × (Nat × Nat)) × List Wake)
+  | .nf b => match markNotarFallback t b with | some r => .ok r | none => .error .readyAssert
+  | .skip s => match markSkipped t s with | some r => .ok r | none => .error .readyAssert
+  | .fin ev => match handleFinalization t ev with | some r => .ok r | none => .error .readyAssert
+  | .prune r => .ok (prune t r, [], [])
+  | .wait s =>
+    match waitForParentReady t s with
+    | .ready t' _ => .ok (t', [], [])
+    | .waiting t' => .ok (t', [], [])
+    | .panic => .error .waiterAssert
+
+/-- tracker, all announcements so far (concatenated, in order), all wake-ups so far -/
+structure RunState where
+  t : Tracker
+  ann : List (Nat × (Nat × Nat))
+  wakes : List Wake
+
+def RunState.step (st : RunState) (op : Op) : Except Panic RunState :=
+  match applyOp st.t op with
+  | .ok (t', a, w) => .ok ⟨t', st.ann ++ a, st.wakes ++ w⟩
+  | .error e => .error e
+
+def runStep (acc : Except Panic RunState) (op : Op) : Except Panic RunState :=
+  match acc with
+  | .ok st => st.step op
+  | .error e => .error e
+
+/-- a run from `ParentReadyTracker::default()` -/
+def run (ops : List Op) : Except Panic RunState := ops.foldl runStep (.ok ⟨init, [], []⟩)
+
+/-- the ghost history, one operation -/
+def Hist.step (h : Hist) : Op → Hist
+  | .nf b => h.nfMark b
+  | .skip s => h.skMark s
+  | .fin ev => h.finMark ev
+  | .prune r => h.pruneTo r
+  | .wait _ => h
+
+/-- the ghost history of a run (a function of the operations alone): accepted marks, root, prune roots -/
+def hist (ops : List Op) : Hist := ops.foldl Hist.step {}
+
+/-- **The premise on pruning** (decidable, on the operation list): prune roots are monotone, and no slot used as a
+    prune root is ever (before or after) *accepted* as a skip mark — unless it is the first slot of a window
+    (then its ready list is retained and the backward walk of `mark_skipped` ends there anyway).
+    The pool only prunes to a finalized slot, and a finalized slot is never skip-certified. -/
+def SafeRun (ops : List Op) : Prop :=
+  (hist ops).mono = true ∧ ∀ r ∈ (hist ops).roots, isWindowStart r = true ∨ r ∉ (hist ops).sk
+
+instance (ops : List Op) : Decidable (SafeRun ops) := by unfold SafeRun; infer_instance
+
+instance (h : Hist) (s : Nat) (b : Nat × Nat) : Decidable (Connected h s b) :=
+  decidable_of_iff (b.1 < s ∧ b ∈ h.nf ∧ ∀ u, u < s → b.1 < u → u ∈ h.sk)
+    ⟨fun ⟨a, c, d⟩ => ⟨a, c, fun u x y => d u y x⟩, fun ⟨a, c, d⟩ => ⟨a, c, fun u x y => d u y x⟩⟩
+
+/-- the slots `wait_for_parent_ready` was called for -/
+def waitSlots (ops : List Op) : List Nat := ops.filterMap (fun | .wait s => some s | _ => none)
+
+/-! ### helper lemmas about runs -/
+
+theorem snoc_induction {α : Type} {P : List α → Prop} (nil : P []) (snoc : ∀ l a, P l → P (l ++ [a])) :
+    ∀ l, P l := by
+  intro l
+  have : ∀ r : List α, P r.reverse := by
+    intro r
+    induction r with
+    | nil => exact nil
+    | cons a r ih => rw [List.reverse_cons]; exact snoc _ _ ih
+  simpa using this l.reverse
+
+theorem hist_snoc (ops : List Op) (op : Op) : hist (ops ++ [op]) = (hist ops).step op := by
+  unfold hist; rw [List.foldl_append]; rfl
+
+theorem run_snoc (ops : List Op) (op : Op) : run (ops ++ [op]) = runStep (run ops) op := by
+  unfold run; rw [List.foldl_append]; rfl
+
+theorem nfMark_same (h : Hist) (b : Nat × Nat) :
+    (h.nfMark b).root = h.root ∧ (h.nfMark b).sk = h.sk ∧ (h.nfMark b).roots = h.roots ∧ (h.nfMark b).mono = h.mono := by
+  unfold Hist.nfMark; split <;> exact ⟨rfl, rfl, rfl, rfl⟩
+
+theorem skMark_same (h : Hist) (s : Nat) :
+    (h.skMark s).root = h.root ∧ (h.skMark s).roots = h.roots ∧ (h.skMark s).mono = h.mono := by
+  unfold Hist.skMark; split <;> exact ⟨rfl, rfl, rfl⟩
+
+theorem foldl_nfMark_same (bs : List (Nat × Nat)) (h : Hist) :
+    (bs.foldl Hist.nfMark h).root = h.root ∧ (bs.foldl Hist.nfMark h).sk = h.sk ∧
+    (bs.foldl Hist.nfMark h).roots = h.roots ∧ (bs.foldl Hist.nfMark h).mono = h.mono := by
+  induction bs generalizing h with
+  | nil => exact ⟨rfl, rfl, rfl, rfl⟩
+  | cons b bs ih =>
+    rw [List.foldl_cons]
+    obtain ⟨a1, a2, a3, a4⟩ := ih (h.nfMark b)
+    obtain ⟨b1, b2, b3, b4⟩ := nfMark_same h b
+    exact ⟨a1.trans b1, a2.trans b2, a3.trans b3, a4.trans b4⟩
+
+theorem foldl_skMark_same (ss : List Nat) (h : Hist) :
+    (ss.foldl Hist.skMark h).root = h.root ∧ (ss.foldl Hist.skMark h).roots = h.roots ∧
+    (ss.foldl Hist.skMark h).mono = h.mono := by
+  induction ss generalizing h with
+  | nil => exact ⟨rfl, rfl, rfl⟩
+  | cons b bs ih =>
+    rw [List.foldl_cons]
+    obtain ⟨a1, a3, a4⟩ := ih (h.skMark b)
+    obtain ⟨b1, b3, b4⟩ := skMark_same h b
+    exact ⟨a1.trans b1, a3.trans b3, a4.trans b4⟩
+
+theorem finMark_same (h : Hist) (ev : Finality.Event) :
+    (h.finMark ev).root = h.root ∧ (h.finMark ev).roots = h.roots ∧ (h.finMark ev).mono = h.mono := by
+  unfold Hist.finMark
+  obtain ⟨a1, a3, a4⟩ := foldl_skMark_same ev.implSkipped ((ev.finalized.toList ++ ev.implFinalized).foldl Hist.nfMark h)
+  obtain ⟨b1, _, b3, b4⟩ := foldl_nfMark_same (ev.finalized.toList ++ ev.implFinalized) h
+  exact ⟨a1.trans b1, a3.trans b3, a4.trans b4⟩
+
+/-- the history only grows -/
+theorem step_mono (h : Hist) (op : Op) :
+    (∀ x, x ∈ h.sk → x ∈ (h.step op).sk) ∧ (∀ r, r ∈ h.roots → r ∈ (h.step op).roots) ∧
+    ((h.step op).mono = true → h.mono = true) := by
+  cases op with
+  | nf b => obtain ⟨_, a2, a3, a4⟩ := nfMark_same h b; exact ⟨fun x hx => by rw [Hist.step, a2]; exact hx,
+      fun r hr => by rw [Hist.step, a3]; exact hr, fun hm => by rw [Hist.step, a4] at hm; exact hm⟩
+  | skip s => obtain ⟨_, a3, a4⟩ := skMark_same h s; exact ⟨fun x hx => skMark_sk_mono h s hx,
+      fun r hr => by rw [Hist.step, a3]; exact hr, fun hm => by rw [Hist.step, a4] at hm; exact hm⟩
+  | fin ev =>
+    obtain ⟨_, a3, a4⟩ := finMark_same h ev
+    refine ⟨fun x hx => ?_, fun r hr => by rw [Hist.step, a3]; exact hr, fun hm => by rw [Hist.step, a4] at hm; exact hm⟩
+    exact foldl_skMark_sk_mono _ _ (by rw [foldl_nfMark_sk]; exact hx)
+  | prune r =>
+    refine ⟨fun x hx => hx, fun r hr => List.mem_cons_of_mem _ hr, fun hm => ?_⟩
+    simp only [Hist.step, Hist.pruneTo, Bool.and_eq_true] at hm
+    exact hm.1
+  | wait s => exact ⟨fun x hx => hx, fun r hr => hr, fun hm => hm⟩
+
+/-- the premise is prefix-closed -/
+theorem SafeRun.prefix {ops : List Op} {op : Op} (h : SafeRun (ops ++ [op])) : SafeRun ops := by
+  unfold SafeRun at *
+  rw [hist_snoc] at h
+  obtain ⟨m1, m2, m3⟩ := step_mono (hist ops) op
+  refine ⟨m3 h.1, fun r hr => ?_⟩
+  rcases h.2 r (m2 r hr) with a | a
+  · exact Or.inl a
+  · exact Or.inr (fun hm => a (m1 r hm))
+
+theorem root_mem (ops : List Op) : (hist ops).root = 0 ∨ (hist ops).root ∈ (hist ops).roots := by
+  induction ops using snoc_induction with
+  | nil => exact Or.inl rfl
+  | snoc ops op ih =>
+    rw [hist_snoc]
+    cases op with
+    | nf b => obtain ⟨a1, _, a3, _⟩ := nfMark_same (hist ops) b; rw [Hist.step, a1, a3]; exact ih
+    | skip s => obtain ⟨a1, a3, _⟩ := skMark_same (hist ops) s; rw [Hist.step, a1, a3]; exact ih
+    | fin ev => obtain ⟨a1, a3, _⟩ := finMark_same (hist ops) ev; rw [Hist.step, a1, a3]; exact ih
+    | prune r => exact Or.inr List.mem_cons_self
+    | wait s => exact ih
+
+theorem SafeRun.rootOK {ops : List Op} (h : SafeRun ops) : RootOK (hist ops) := by
+  rcases root_mem ops with e | hm
+  · left; rw [e]; decide
+  · exact h.2 _ hm
+
+/-- what the induction over a run carries -/
+structure RInv (ops : List Op) (st : RunState) : Prop where
+  inv : Inv (hist ops) st.t
+  annNodup : st.ann.Nodup
+  annReady : ∀ s b, (s, b) ∈ st.ann → (hist ops).root ≤ s → b ∈ (get st.t s).ready
+  waited : ∀ s, (get st.t s).waiter = true → s ∈ waitSlots ops
+
+theorem waitSlots_snoc (ops : List Op) (op : Op) :
+    waitSlots (ops ++ [op]) = waitSlots ops ++ (match op with | .wait s => [s] | _ => []) := by
+  unfold waitSlots
+  rw [List.filterMap_append]
+  cases op <;> rfl
+
+/-- a (composite) mark keeps the run invariant -/
+theorem rinv_mark {ops : List Op} {op : Op} {st : RunState} (ri : RInv ops st) {t' : Tracker}
+    {a : List (Nat × (Nat × Nat))} {w : List Wake}
+    (hinv : Inv (hist (ops ++ [op])) t') (hstep : Step st.t t' a w) (hroot : (hist (ops ++ [op])).root = (hist ops).root) :
+    RInv (ops ++ [op]) ⟨t', st.ann ++ a, st.wakes ++ w⟩ := by
+  refine ⟨hinv, ?_, ?_, ?_⟩
+  · show (st.ann ++ a).Nodup
+    rw [List.nodup_append]
+    refine ⟨ri.annNodup, hstep.annNodup, ?_⟩
+    intro x hx y hy e
+    subst e
+    obtain ⟨r, _, m⟩ := hstep.annNew x.1 x.2 hy
+    rw [ri.inv.root] at r
+    exact m (ri.annReady x.1 x.2 hx r)
+  · intro s b hm hs
+    rw [hroot] at hs
+    obtain ⟨l, hl⟩ := hstep.ext s
+    rcases List.mem_append.mp hm with hm | hm
+    · show b ∈ (get t' s).ready
+      rw [hl]; exact List.mem_append_left _ (ri.annReady s b hm hs)
+    · exact (hstep.annNew s b hm).2.1
+  · intro s hs
+    rw [waitSlots_snoc]
+    exact List.mem_append_left _ (ri.waited s ((hstep.waiter s).mp hs).1)
+
+/-- **Every run that respects the premise keeps the invariant** (in particular never hits the `assert!` of
+    `add_to_ready`); the only possible panic is a second waiter for a slot. -/
+theorem reach (ops : List Op) (hs : SafeRun ops) :
+    (∃ st, run ops = .ok st ∧ RInv ops st) ∨ (run ops = .error .waiterAssert ∧ ¬ (waitSlots ops).Nodup) := by
+  induction ops using snoc_induction with
+  | nil =>
+    left
+    refine ⟨⟨init, [], []⟩, rfl, inv_init, List.nodup_nil, fun _ _ h => (by cases h), ?_⟩
+    intro s hw
+    have := inv_init.waiter s
+    simp only [get, init] at hw
+    split at hw <;> cases hw
+  | snoc ops op ih =>
+    rcases ih hs.prefix with ⟨st, hrun, ri⟩ | ⟨herr, hnd⟩
+    · rw [run_snoc, hrun]
+      have hok := hs.rootOK
+      rw [hist_snoc] at hok
+      cases op with
+      | nf b =>
+        obtain ⟨t', a, w, e, inv', stp, _⟩ := nf_step ri.inv b
+        left
+        refine ⟨⟨t', st.ann ++ a, st.wakes ++ w⟩, by simp only [runStep, RunState.step, applyOp, e], ?_⟩
+        exact rinv_mark ri (by rw [hist_snoc]; exact inv') stp (by rw [hist_snoc]; exact (nfMark_same _ b).1)
+      | skip s =>
+        obtain ⟨t', a, w, e, inv', stp, _⟩ := skip_step ri.inv s hok
+        left
+        refine ⟨⟨t', st.ann ++ a, st.wakes ++ w⟩, by simp only [runStep, RunState.step, applyOp, e], ?_⟩
+        exact rinv_mark ri (by rw [hist_snoc]; exact inv') stp (by rw [hist_snoc]; exact (skMark_same _ s).1)
+      | fin ev =>
+        obtain ⟨t', a, w, e, inv', stp⟩ := fin_step ri.inv ev hok
+        left
+        refine ⟨⟨t', st.ann ++ a, st.wakes ++ w⟩, by simp only [runStep, RunState.step, applyOp, e], ?_⟩
+        exact rinv_mark ri (by rw [hist_snoc]; exact inv') stp (by rw [hist_snoc]; exact (finMark_same _ ev).1)
+      | prune r =>
+        left
+        have hmono : (hist ops).root ≤ r := by
+          have := hs.1
+          rw [hist_snoc] at this
+          simp only [Hist.step, Hist.pruneTo, Bool.and_eq_true, decide_eq_true_eq] at this
+          exact this.2
+        refine ⟨⟨prune st.t r, st.ann ++ [], st.wakes ++ []⟩, rfl, ?_, ?_, ?_, ?_⟩
+        · rw [hist_snoc]; exact prune_step ri.inv hmono
+        · show (st.ann ++ []).Nodup
+          rw [List.append_nil]; exact ri.annNodup
+        · intro s b hm hr
+          rw [hist_snoc] at hr
+          have hr' : r ≤ s := hr
+          show b ∈ (get (prune st.t r) s).ready
+          rw [get_prune, if_neg (by omega)]
+          exact ri.annReady s b (by simpa using hm) (by omega)
+        · intro s hw
+          rw [waitSlots_snoc]
+          apply List.mem_append_left
+          change (get (prune st.t r) s).waiter = true at hw
+          rw [get_prune] at hw
+          split at hw
+          · cases hw
+          · exact ri.waited s hw
+      | wait s =>
+        have hw := wait_step ri.inv s
+        simp only [runStep, RunState.step, applyOp]
+        cases hres : waitForParentReady st.t s with
+        | ready t' b =>
+          rw [hres] at hw
+          obtain ⟨inv', _, hrd, hwt, _⟩ := hw
+          left
+          refine ⟨⟨t', st.ann ++ [], st.wakes ++ []⟩, rfl, by rw [hist_snoc]; exact inv', ?_, ?_, ?_⟩
+          · show (st.ann ++ []).Nodup
+            rw [List.append_nil]; exact ri.annNodup
+          · intro x p hm hr
+            rw [hist_snoc] at hr
+            show p ∈ (get t' x).ready
+            rw [hrd]; exact ri.annReady x p (by simpa using hm) hr
+          · intro x hx
+            change (get t' x).waiter = true at hx
+            rw [hwt] at hx
+            rw [waitSlots_snoc]; exact List.mem_append_left _ (ri.waited x hx)
+        | waiting t' =>
+          rw [hres] at hw
+          obtain ⟨inv', _, hrd, hwt, _⟩ := hw
+          left
+          refine ⟨⟨t', st.ann ++ [], st.wakes ++ []⟩, rfl, by rw [hist_snoc]; exact inv', ?_, ?_, ?_⟩
+          · show (st.ann ++ []).Nodup
+            rw [List.append_nil]; exact ri.annNodup
+          · intro x p hm hr
+            rw [hist_snoc] at hr
+            show p ∈ (get t' x).ready
+            rw [hrd]; exact ri.annReady x p (by simpa using hm) hr
+          · intro x hx
+            change (get t' x).waiter = true at hx
+            rw [waitSlots_snoc]
+            rcases (hwt x).mp hx with e | hx
+            · subst e; exact List.mem_append_right _ (List.mem_singleton.mpr rfl)
+            · exact List.mem_append_left _ (ri.waited x hx)
+        | panic =>
+          rw [hres] at hw
+          right
+          refine ⟨rfl, ?_⟩
+          rw [waitSlots_snoc]
+          intro hnd
+          have := (List.nodup_append.mp hnd).2.2 s (ri.waited s hw.1) s (List.mem_singleton.mpr rfl)
+          exact this rfl
+    · right
+      rw [run_snoc, herr]
+      refine ⟨rfl, ?_⟩
+      rw [waitSlots_snoc]
+      intro h
+      exact hnd (List.nodup_append.mp h).1
+
+/-! ### the property theorems over whole runs -/
+
+/-- **`ready_iff` (exactness).**  In every state reached by a run that respects the premise on pruning, for every first
+    slot `s` of a leader window at or above the root and every block `b = (ps, h)`:
+    `b` is answered by `parents_ready(s)` **iff** `ps < s`, `b` was accepted as notar-fallback / finalized mark (genesis
+    counts) and every slot strictly between `ps` and `s` was accepted as skip mark — whatever the order of arrival,
+    however marks, finalization events, waits and prunes are interleaved. -/
+theorem ready_iff {ops : List Op} {st : RunState} (hs : SafeRun ops) (hrun : run ops = .ok st)
+    {s : Nat} (hroot : (hist ops).root ≤ s) (hws : isWindowStart s = true) (b : Nat × Nat) :
+    b ∈ parentsReady st.t s ↔ b.1 < s ∧ b ∈ (hist ops).nf ∧ ∀ u, b.1 < u → u < s → u ∈ (hist ops).sk := by
+  rcases reach ops hs with ⟨st', hrun', ri⟩ | ⟨herr, _⟩
+  · rw [hrun] at hrun'; cases hrun'
+    rw [parentsReady_eq_get, ri.inv.ready s b hroot]
+    exact ⟨fun h => h.2, fun h => ⟨hws, h⟩⟩
+  · rw [hrun] at herr; cases herr
+
+/-- … and slots that are not the first of a window, and pruned slots, have no ready parents. -/
+theorem ready_only_for_live_window_starts {ops : List Op} {st : RunState} (hs : SafeRun ops) (hrun : run ops = .ok st)
+    {s : Nat} (h : isWindowStart s = false ∨ s < (hist ops).root) : parentsReady st.t s = [] := by
+  rcases reach ops hs with ⟨st', hrun', ri⟩ | ⟨herr, _⟩
+  · rw [hrun] at hrun'; cases hrun'
+    rw [parentsReady_eq_get]
+    by_cases hr : s < (hist ops).root
+    · exact ri.inv.low s hr
+    · rcases h with h | h
+      · apply List.eq_nil_iff_forall_not_mem.mpr
+        intro p hp
+        have := ((ri.inv.ready s p (by omega)).mp hp).1
+        rw [h] at this; cases this
+      · exact absurd h hr
+  · rw [hrun] at herr; cases herr
+
+/-- the tracker's root is the last prune root -/
+theorem run_root {ops : List Op} {st : RunState} (hs : SafeRun ops) (hrun : run ops = .ok st) :
+    st.t.root = (hist ops).root := by
+  rcases reach ops hs with ⟨st', hrun', ri⟩ | ⟨herr, _⟩
+  · rw [hrun] at hrun'; cases hrun'; exact ri.inv.root
+  · rw [hrun] at herr; cases herr
+
+/-- **No panic in `add_to_ready`**: no operation of any run that respects the premise hits
+    `assert!(!ready_ids.contains(&id))` (nor runs a forward loop out of fuel: `fwd_exact` shows the loops end by
+    `break`). -/
+theorem run_never_panics {ops : List Op} (hs : SafeRun ops) : run ops ≠ .error .readyAssert := by
+  rcases reach ops hs with ⟨st', hrun', _⟩ | ⟨herr, _⟩
+  · rw [hrun']; intro h; cases h
+  · rw [herr]; intro h; cases h
+
+/-- … and when `wait_for_parent_ready` is called at most once per slot (the block producer waits once per window) no
+    operation panics at all. -/
+theorem run_ok_of_single_waits {ops : List Op} (hs : SafeRun ops) (hw : (waitSlots ops).Nodup) :
+    ∃ st, run ops = .ok st := by
+  rcases reach ops hs with ⟨st', hrun', _⟩ | ⟨_, hnd⟩
+  · exact ⟨st', hrun'⟩
+  · exact absurd hw hnd
+
+/-- **Each `(s, b)` pair is announced at most once over a whole run**: the concatenation of the announcement lists of
+    all operations (certificate paths and finalization batches; pruning in between) has no duplicate. -/
+theorem announced_once {ops : List Op} {st : RunState} (hs : SafeRun ops) (hrun : run ops = .ok st) : st.ann.Nodup := by
+  rcases reach ops hs with ⟨st', hrun', ri⟩ | ⟨herr, _⟩
+  · rw [hrun] at hrun'; cases hrun'; exact ri.annNodup
+  · rw [hrun] at herr; cases herr
+
+/-- … and an announced pair stays answered by the query until its slot is pruned. -/
+theorem announced_stays_ready {ops : List Op} {st : RunState} (hs : SafeRun ops) (hrun : run ops = .ok st)
+    {s : Nat} {b : Nat × Nat} (ha : (s, b) ∈ st.ann) (hroot : (hist ops).root ≤ s) : b ∈ parentsReady st.t s := by
+  rcases reach ops hs with ⟨st', hrun', ri⟩ | ⟨herr, _⟩
+  · rw [hrun] at hrun'; cases hrun'; rw [parentsReady_eq_get]; exact ri.annReady s b ha hroot
+  · rw [hrun] at herr; cases herr
+
+/-- **Announcements are complete on the certificate paths**: after any run, `mark_notar_fallback` / `mark_skipped`
+    announce *exactly* the pairs that enter a ready list in that very step.  (`handle_finalization` deliberately
+    announces only one highest-slot pair of its batch — `finalization_announces_highest` — so there only `⊆` holds:
+    `announce_subset_query_finalization`.) -/
+theorem announce_exact_on_certificate_paths {ops : List Op} {st : RunState} {op : Op}
+    (hs : SafeRun (ops ++ [op])) (hrun : run ops = .ok st) (hop : (∃ b, op = .nf b) ∨ (∃ s, op = .skip s)) :
+    ∃ t' ann w, applyOp st.t op = .ok (t', ann, w) ∧
+      ∀ s p, (s, p) ∈ ann ↔ p ∈ parentsReady t' s ∧ p ∉ parentsReady st.t s := by
+  rcases reach ops hs.prefix with ⟨st', hrun', ri⟩ | ⟨herr, _⟩
+  · rw [hrun] at hrun'; cases hrun'
+    have hok := hs.rootOK
+    rw [hist_snoc] at hok
+    rcases hop with ⟨b, rfl⟩ | ⟨ms, rfl⟩
+    · obtain ⟨t', a, w, e, _, stp, hex⟩ := nf_step ri.inv b
+      refine ⟨t', a, w, by simp only [applyOp, e], fun s p => ?_⟩
+      rw [parentsReady_eq_get, parentsReady_eq_get]
+      exact ⟨fun h => (stp.annNew s p h).2, fun h => hex s p h.1 h.2⟩
+    · obtain ⟨t', a, w, e, _, stp, hex⟩ := skip_step ri.inv ms hok
+      refine ⟨t', a, w, by simp only [applyOp, e], fun s p => ?_⟩
+      rw [parentsReady_eq_get, parentsReady_eq_get]
+      exact ⟨fun h => (stp.annNew s p h).2, fun h => hex s p h.1 h.2⟩
+  · rw [hrun] at herr; cases herr
+
+/-- A registered waiter means that no parent is ready for its slot yet. -/
+theorem waiter_means_not_ready {ops : List Op} {st : RunState} (hs : SafeRun ops) (hrun : run ops = .ok st)
+    {s : Nat} (hw : (get st.t s).waiter = true) : parentsReady st.t s = [] := by
+  rcases reach ops hs with ⟨st', hrun', ri⟩ | ⟨herr, _⟩
+  · rw [hrun] at hrun'; cases hrun'; rw [parentsReady_eq_get]; exact ri.inv.waiter s hw
+  · rw [hrun] at herr; cases herr
+
+/-- **A waiter registered for `s` is woken exactly by the first parent that becomes ready for `s`**: after any run, a mark
+    operation (certificate or finalization batch) sends `b` to the waiter of `s` iff a waiter is registered for `s` and
+    `b` is the first entry of the ready list of `s` afterwards (the list was empty before: `waiter_means_not_ready`);
+    the waiter stays registered exactly when the list is still empty. -/
+theorem waiter_woken_by_first_ready {ops : List Op} {st : RunState} {op : Op}
+    (hs : SafeRun (ops ++ [op])) (hrun : run ops = .ok st)
+    (hop : (∃ b, op = .nf b) ∨ (∃ s, op = .skip s) ∨ (∃ ev, op = .fin ev)) :
+    ∃ t' ann w, applyOp st.t op = .ok (t', ann, w) ∧
+      (∀ s b, (s, b) ∈ w ↔ (get st.t s).waiter = true ∧ (parentsReady t' s).head? = some b) ∧
+      (∀ s, (get t' s).waiter = true ↔ (get st.t s).waiter = true ∧ parentsReady t' s = []) := by
+  rcases reach ops hs.prefix with ⟨st', hrun', ri⟩ | ⟨herr, _⟩
+  · rw [hrun] at hrun'; cases hrun'
+    have hok := hs.rootOK
+    rw [hist_snoc] at hok
+    rcases hop with ⟨b, rfl⟩ | ⟨ms, rfl⟩ | ⟨ev, rfl⟩
+    · obtain ⟨t', a, w, e, _, stp, _⟩ := nf_step ri.inv b
+      exact ⟨t', a, w, by simp only [applyOp, e], fun s p => by rw [parentsReady_eq_get]; exact stp.wake s p,
+        fun s => by rw [parentsReady_eq_get]; exact stp.waiter s⟩
+    · obtain ⟨t', a, w, e, _, stp, _⟩ := skip_step ri.inv ms hok
+      exact ⟨t', a, w, by simp only [applyOp, e], fun s p => by rw [parentsReady_eq_get]; exact stp.wake s p,
+        fun s => by rw [parentsReady_eq_get]; exact stp.waiter s⟩
+    · obtain ⟨t', a, w, e, _, stp⟩ := fin_step ri.inv ev hok
+      exact ⟨t', a, w, by simp only [applyOp, e], fun s p => by rw [parentsReady_eq_get]; exact stp.wake s p,
+        fun s => by rw [parentsReady_eq_get]; exact stp.waiter s⟩
+  · rw [hrun] at herr; cases herr
+
+/-! ### the premise: a syntactic sufficient form, necessity, non-vacuity -/
+
+/-- the arguments of the `prune` calls, in order -/
+def pruneArgs (ops : List Op) : List Nat := ops.flatMap (fun | .prune r => [r] | _ => [])
+/-- all slots ever submitted as skip marks (directly or as implicit skips of a finalization event) -/
+def skipArgs (ops : List Op) : List Nat := ops.flatMap (fun | .skip s => [s] | .fin ev => ev.implSkipped | _ => [])
+
+theorem mem_foldl_skMark {ss : List Nat} {h : Hist} {x : Nat} (hx : x ∈ (ss.foldl Hist.skMark h).sk) :
+    x ∈ h.sk ∨ x ∈ ss := by
+  induction ss generalizing h with
+  | nil => exact Or.inl hx
+  | cons s ss ih =>
+    rcases ih hx with h1 | h1
+    · unfold Hist.skMark at h1
+      split at h1
+      · exact Or.inl h1
+      · rcases List.mem_cons.mp h1 with e | h2
+        · exact Or.inr (e ▸ List.mem_cons_self)
+        · exact Or.inl h2
+    · exact Or.inr (List.mem_cons_of_mem _ h1)
+
+theorem hist_sk_sub (ops : List Op) : ∀ x, x ∈ (hist ops).sk → x ∈ skipArgs ops := by
+  induction ops using snoc_induction with
+  | nil => intro x hx; cases hx
+  | snoc ops op ih =>
+    intro x hx
+    rw [hist_snoc] at hx
+    unfold skipArgs
+    rw [List.flatMap_append, List.mem_append]
+    cases op with
+    | nf b => rw [Hist.step, (nfMark_same _ b).2.1] at hx; exact Or.inl (ih x hx)
+    | skip s =>
+      rcases @mem_foldl_skMark [s] _ _ hx with h1 | h1
+      · exact Or.inl (ih x h1)
+      · right; simpa using h1
+    | fin ev =>
+      rcases mem_foldl_skMark hx with h1 | h1
+      · rw [foldl_nfMark_sk] at h1; exact Or.inl (ih x h1)
+      · right; simpa using h1
+    | prune r => exact Or.inl (ih x hx)
+    | wait s => exact Or.inl (ih x hx)
+
+theorem hist_roots (ops : List Op) :
+    (∀ r, r ∈ (hist ops).roots → r ∈ pruneArgs ops) ∧ ((hist ops).root = 0 ∨ (hist ops).root ∈ pruneArgs ops) := by
+  induction ops using snoc_induction with
+  | nil => exact ⟨fun r hr => (by cases hr), Or.inl rfl⟩
+  | snoc ops op ih =>
+    rw [hist_snoc]
+    unfold pruneArgs at *
+    simp only [List.flatMap_append, List.mem_append]
+    cases op with
+    | nf b => obtain ⟨a1, _, a3, _⟩ := nfMark_same (hist ops) b; rw [Hist.step, a1, a3]
+              exact ⟨fun r hr => Or.inl (ih.1 r hr), ih.2.imp id Or.inl⟩
+    | skip s => obtain ⟨a1, a3, _⟩ := skMark_same (hist ops) s; rw [Hist.step, a1, a3]
+                exact ⟨fun r hr => Or.inl (ih.1 r hr), ih.2.imp id Or.inl⟩
+    | fin ev => obtain ⟨a1, a3, _⟩ := finMark_same (hist ops) ev; rw [Hist.step, a1, a3]
+                exact ⟨fun r hr => Or.inl (ih.1 r hr), ih.2.imp id Or.inl⟩
+    | prune r =>
+      refine ⟨fun r' hr => ?_, Or.inr (Or.inr (by simp [Hist.step, Hist.pruneTo]))⟩
+      rcases List.mem_cons.mp hr with e | h1
+      · right; simp [e]
+      · exact Or.inl (ih.1 r' h1)
+    | wait s => exact ⟨fun r hr => Or.inl (ih.1 r hr), ih.2.imp id Or.inl⟩
+
+theorem hist_mono_of_sorted (ops : List Op) (h : (pruneArgs ops).Pairwise (· ≤ ·)) : (hist ops).mono = true := by
+  induction ops using snoc_induction with
+  | nil => rfl
+  | snoc ops op ih =>
+    have hp : pruneArgs (ops ++ [op]) = pruneArgs ops ++ pruneArgs [op] := by
+      unfold pruneArgs; rw [List.flatMap_append]
+    rw [hp, List.pairwise_append] at h
+    have ih' := ih h.1
+    rw [hist_snoc]
+    cases op with
+    | nf b => rw [Hist.step, (nfMark_same _ b).2.2.2]; exact ih'
+    | skip s => rw [Hist.step, (skMark_same _ s).2.2]; exact ih'
+    | fin ev => rw [Hist.step, (finMark_same _ ev).2.2]; exact ih'
+    | prune r =>
+      simp only [Hist.step, Hist.pruneTo, Bool.and_eq_true, decide_eq_true_eq]
+      refine ⟨ih', ?_⟩
+      rcases (hist_roots ops).2 with e | hm
+      · omega
+      · exact h.2.2 _ hm r (by simp [pruneArgs])
+    | wait s => exact ih'
+
+/-- The premise in its plain syntactic form implies `SafeRun`: the prune roots are monotone and no slot that is ever
+    used as a prune root is ever submitted as a skip mark (directly or by a finalization event), before or after. -/
+theorem safeRun_of_roots_never_skipped {ops : List Op} (hmono : (pruneArgs ops).Pairwise (· ≤ ·))
+    (hns : ∀ r ∈ pruneArgs ops, r ∉ skipArgs ops) : SafeRun ops :=
+  ⟨hist_mono_of_sorted ops hmono, fun r hr => Or.inr (fun hm => hns r ((hist_roots ops).1 r hr) (hist_sk_sub ops r hm))⟩
+
+/-! ### order independence -/
+
+/-- all blocks ever submitted as notar-fallback marks (directly or by a finalization event) -/
+def nfArgs (ops : List Op) : List (Nat × Nat) :=
+  ops.flatMap (fun | .nf b => [b] | .fin ev => ev.finalized.toList ++ ev.implFinalized | _ => [])
+
+theorem mem_foldl_nfMark0 {bs : List (Nat × Nat)} {h : Hist} (hr : h.root = 0) (x : Nat × Nat) :
+    x ∈ (bs.foldl Hist.nfMark h).nf ↔ x ∈ h.nf ∨ x ∈ bs := by
+  induction bs generalizing h with
+  | nil => simp
+  | cons b bs ih =>
+    have e : h.nfMark b = h.addNf b := by unfold Hist.nfMark; rw [hr, if_neg (Nat.not_lt_zero _)]
+    rw [List.foldl_cons, e, ih (h := h.addNf b) hr]
+    simp only [Hist.addNf, List.mem_cons]
+    constructor
+    · rintro ((a | a) | a)
+      · exact Or.inr (Or.inl a)
+      · exact Or.inl a
+      · exact Or.inr (Or.inr a)
+    · rintro (a | a | a)
+      · exact Or.inl (Or.inr a)
+      · exact Or.inl (Or.inl a)
+      · exact Or.inr a
+
+theorem mem_foldl_skMark0 {ss : List Nat} {h : Hist} (hr : h.root = 0) (x : Nat) :
+    x ∈ (ss.foldl Hist.skMark h).sk ↔ x ∈ h.sk ∨ x ∈ ss := by
+  induction ss generalizing h with
+  | nil => simp
+  | cons b bs ih =>
+    have e : h.skMark b = h.addSk b := by unfold Hist.skMark; rw [hr, if_neg (Nat.not_lt_zero _)]
+    rw [List.foldl_cons, e, ih (h := h.addSk b) hr]
+    simp only [Hist.addSk, List.mem_cons]
+    constructor
+    · rintro ((a | a) | a)
+      · exact Or.inr (Or.inl a)
+      · exact Or.inl a
+      · exact Or.inr (Or.inr a)
+    · rintro (a | a | a)
+      · exact Or.inl (Or.inr a)
+      · exact Or.inl (Or.inl a)
+      · exact Or.inr a
+
+theorem pruneArgs_snoc_nil {ops : List Op} {op : Op} (h : pruneArgs (ops ++ [op]) = []) :
+    pruneArgs ops = [] ∧ ∀ r, op ≠ .prune r := by
+  unfold pruneArgs at *
+  rw [List.flatMap_append, List.append_eq_nil_iff] at h
+  refine ⟨h.1, fun r e => ?_⟩
+  subst e
+  simp at h
+
+/-- without pruning every mark is accepted: the history is the set of submitted marks (plus genesis) -/
+theorem hist_of_no_prune (ops : List Op) (hp : pruneArgs ops = []) :
+    (hist ops).root = 0 ∧ (hist ops).roots = [] ∧ (hist ops).mono = true ∧
+    (∀ b, b ∈ (hist ops).nf ↔ b = (0, 0) ∨ b ∈ nfArgs ops) ∧ (∀ u, u ∈ (hist ops).sk ↔ u ∈ skipArgs ops) := by
+  induction ops using snoc_induction with
+  | nil => exact ⟨rfl, rfl, rfl, fun b => by simp [hist, nfArgs], fun u => by simp [hist, skipArgs]⟩
+  | snoc ops op ih =>
+    obtain ⟨hp', hnp⟩ := pruneArgs_snoc_nil hp
+    obtain ⟨i1, i2, i3, i4, i5⟩ := ih hp'
+    rw [hist_snoc]
+    have hn : nfArgs (ops ++ [op]) = nfArgs ops ++ nfArgs [op] := by unfold nfArgs; rw [List.flatMap_append]
+    have hk : skipArgs (ops ++ [op]) = skipArgs ops ++ skipArgs [op] := by unfold skipArgs; rw [List.flatMap_append]
+    simp only [hn, hk, List.mem_append]
+    cases op with
+    | nf b =>
+      obtain ⟨a1, a2, a3, a4⟩ := nfMark_same (hist ops) b
+      refine ⟨a1.trans i1, a3.trans i2, a4.trans i3, fun x => ?_, fun u => ?_⟩
+      · have := @mem_foldl_nfMark0 [b] _ i1 x
+        simp only [List.foldl_cons, List.foldl_nil] at this
+        rw [Hist.step, this, i4]
+        simp [nfArgs, or_assoc]
+      · rw [Hist.step, a2, i5]; simp [skipArgs]
+    | skip s =>
+      obtain ⟨a1, a3, a4⟩ := skMark_same (hist ops) s
+      refine ⟨a1.trans i1, a3.trans i2, a4.trans i3, fun x => ?_, fun u => ?_⟩
+      · have e : (hist ops).skMark s = (hist ops).addSk s := by unfold Hist.skMark; rw [i1, if_neg (Nat.not_lt_zero _)]
+        rw [Hist.step, e]
+        show x ∈ (hist ops).nf ↔ _
+        rw [i4]; simp [nfArgs]
+      · have := @mem_foldl_skMark0 [s] _ i1 u
+        simp only [List.foldl_cons, List.foldl_nil] at this
+        rw [Hist.step, this, i5]
+        simp [skipArgs]
+    | fin ev =>
+      obtain ⟨a1, a3, a4⟩ := finMark_same (hist ops) ev
+      obtain ⟨b1, b2, _, _⟩ := foldl_nfMark_same (ev.finalized.toList ++ ev.implFinalized) (hist ops)
+      refine ⟨a1.trans i1, a3.trans i2, a4.trans i3, fun x => ?_, fun u => ?_⟩
+      · have e : ((hist ops).finMark ev).nf = ((ev.finalized.toList ++ ev.implFinalized).foldl Hist.nfMark (hist ops)).nf := by
+          unfold Hist.finMark
+          generalize (ev.finalized.toList ++ ev.implFinalized).foldl Hist.nfMark (hist ops) = h0
+          induction ev.implSkipped generalizing h0 with
+          | nil => rfl
+          | cons s ss ihs =>
+            rw [List.foldl_cons, ihs]
+            unfold Hist.skMark; split <;> rfl
+        rw [Hist.step, e, mem_foldl_nfMark0 i1, i4]
+        simp [nfArgs, or_assoc]
+      · rw [Hist.step, Hist.finMark, mem_foldl_skMark0 (b1.trans i1), b2, i5]
+        simp [skipArgs]
+    | prune r => exact absurd rfl (hnp r)
+    | wait s =>
+      refine ⟨i1, i2, i3, fun x => ?_, fun u => ?_⟩
+      · rw [Hist.step, i4]; simp [nfArgs]
+      · rw [Hist.step, i5]; simp [skipArgs]
+
+theorem safeRun_of_no_prune {ops : List Op} (hp : pruneArgs ops = []) : SafeRun ops := by
+  obtain ⟨_, h2, h3, _⟩ := hist_of_no_prune ops hp
+  exact ⟨h3, fun r hr => by rw [h2] at hr; cases hr⟩
+
+/-- **Order independence** ("whatever order the certificates arrive in"): two runs whose accepted marks are the same
+    *sets* answer every query at or above both roots identically. -/
+theorem order_independent {ops ops' : List Op} {st st' : RunState} (hs : SafeRun ops) (hs' : SafeRun ops')
+    (hrun : run ops = .ok st) (hrun' : run ops' = .ok st')
+    (hnf : ∀ b, b ∈ (hist ops).nf ↔ b ∈ (hist ops').nf) (hsk : ∀ u, u ∈ (hist ops).sk ↔ u ∈ (hist ops').sk)
+    {s : Nat} (hr : (hist ops).root ≤ s) (hr' : (hist ops').root ≤ s) (hws : isWindowStart s = true) (b : Nat × Nat) :
+    b ∈ parentsReady st.t s ↔ b ∈ parentsReady st'.t s := by
+  rw [ready_iff hs hrun hr hws, ready_iff hs' hrun' hr' hws, hnf]
+  constructor
+  · rintro ⟨a, c, d⟩; exact ⟨a, c, fun u x y => (hsk u).mp (d u x y)⟩
+  · rintro ⟨a, c, d⟩; exact ⟨a, c, fun u x y => (hsk u).mpr (d u x y)⟩
+
+/-- … in particular any two orders (permutations) of the same marks, finalization events and waits (no pruning in
+    between) give the same ready parents for every window start — or one of them ran into a second waiter. -/
+theorem order_independent_perm {ops ops' : List Op} {st st' : RunState} (hperm : ops.Perm ops')
+    (hp : pruneArgs ops = []) (hrun : run ops = .ok st) (hrun' : run ops' = .ok st')
+    {s : Nat} (hws : isWindowStart s = true) (b : Nat × Nat) :
+    b ∈ parentsReady st.t s ↔ b ∈ parentsReady st'.t s := by
+  have hp' : pruneArgs ops' = [] := by
+    unfold pruneArgs at *
+    rw [List.flatMap_eq_nil_iff] at *
+    exact fun x hx => hp x (hperm.mem_iff.mpr hx)
+  obtain ⟨r1, _, _, n1, k1⟩ := hist_of_no_prune ops hp
+  obtain ⟨r2, _, _, n2, k2⟩ := hist_of_no_prune ops' hp'
+  refine order_independent (safeRun_of_no_prune hp) (safeRun_of_no_prune hp') hrun hrun' ?_ ?_
+    (by omega) (by omega) hws b
+  · intro x
+    rw [n1, n2]
+    unfold nfArgs
+    simp only [List.mem_flatMap]
+    exact ⟨fun h => h.imp id (fun ⟨a, ha, hx⟩ => ⟨a, hperm.mem_iff.mp ha, hx⟩),
+      fun h => h.imp id (fun ⟨a, ha, hx⟩ => ⟨a, hperm.mem_iff.mpr ha, hx⟩)⟩
+  · intro x
+    rw [k1, k2]
+    unfold skipArgs
+    simp only [List.mem_flatMap]
+    exact ⟨fun ⟨a, ha, hx⟩ => ⟨a, hperm.mem_iff.mp ha, hx⟩, fun ⟨a, ha, hx⟩ => ⟨a, hperm.mem_iff.mpr ha, hx⟩⟩
+
+def outcome (ops : List Op) : Option Panic := match run ops with | .ok _ => none | .error e => some e
+def queryOf (ops : List Op) (s : Nat) : Option (List (Nat × Nat)) :=
+  match run ops with | .ok st => some (parentsReady st.t s) | .error _ => none
+def annOf (ops : List Op) : Option (List (Nat × (Nat × Nat))) :=
+  match run ops with | .ok st => some st.ann | .error _ => none
+def wakesOfRun (ops : List Op) : Option (List Wake) :=
+  match run ops with | .ok st => some st.wakes | .error _ => none
+
+/-- **The premise is necessary (1a)**: a slot is skip-marked and later used as prune root (slot 2, inside a window).
+    The run is fine otherwise (monotone roots, no panic), block (1,7) is connected to window start 4 in the accepted
+    history (skips 2, 3), but the backward walk of `mark_skipped(3)` is cut at the root: `parents_ready(4)` is empty. -/
+theorem ready_iff_fails_if_skipped_slot_becomes_root :
+    let ops : List Op := [.nf (1, 7), .skip 2, .prune 2, .skip 3]
+    ¬ SafeRun ops ∧ (hist ops).mono = true ∧ (hist ops).root ≤ 4 ∧
+      queryOf ops 4 = some [] ∧ Connected (hist ops) 4 (1, 7) := by decide
+
+/-- **The premise is necessary (1b)**: … and likewise when the prune root is skip-marked *afterwards*. -/
+theorem ready_iff_fails_if_root_is_skipped_later :
+    let ops : List Op := [.nf (1, 7), .prune 2, .skip 2, .skip 3]
+    ¬ SafeRun ops ∧ (hist ops).mono = true ∧ (hist ops).root ≤ 4 ∧
+      queryOf ops 4 = some [] ∧ Connected (hist ops) 4 (1, 7) := by decide
+
+/-- **The premise is necessary (2)**: prune roots that go backwards re-open decided slots; a re-delivered mark then hits
+    `assert!(!ready_ids.contains(&id))` … -/
+theorem panic_if_prune_roots_decrease :
+    outcome [.nf (3, 9), .prune 4, .prune 0, .nf (3, 9)] = some .readyAssert := by decide
+
+/-- … and the query is not exact either (the ready list of slot 4 is gone, the history still connects (1,7) to it). -/
+theorem ready_iff_fails_if_prune_roots_decrease :
+    let ops : List Op := [.nf (1, 7), .skip 2, .skip 3, .prune 8, .prune 0]
+    ¬ SafeRun ops ∧ (hist ops).root ≤ 4 ∧ queryOf ops 4 = some [] ∧ Connected (hist ops) 4 (1, 7) := by decide
+
+/-- The exemption of window starts in `SafeRun` is real (so `SafeRun` is strictly weaker than the syntactic premise):
+    slot 4 is skip-marked *and* used as prune root; the tracker stays exact — block (3,9) reaches window start 8 through
+    the retained ready list of slot 4. -/
+example :
+    let ops : List Op := [.nf (3, 9), .skip 4, .prune 4, .skip 5, .skip 6, .skip 7]
+    SafeRun ops ∧ 4 ∈ pruneArgs ops ∧ 4 ∈ skipArgs ops ∧ queryOf ops 8 = some [(3, 9)] ∧ Connected (hist ops) 8 (3, 9) := by
+  decide
+
+/-- **Non-vacuity**: a run over four windows with out-of-order skips, two waiters, a finalization event and two prunes in
+    the middle (to slot 5 inside a window, then to slot 9); marks below the root (skip 4, skip 8) are ignored.  The
+    premise holds (also in its syntactic form), nothing panics, four pairs are announced (each once), both waiters
+    are woken by the first parent of their window. -/
+def demoRun : List Op :=
+  [.nf (1, 7), .skip 2, .wait 4, .skip 3, .wait 8, .nf (5, 3), .prune 5, .skip 4, .skip 7, .skip 6, .nf (5, 2),
+   .fin ⟨some (9, 1), [(8, 6)], []⟩, .skip 11, .skip 10, .wait 12, .prune 9, .skip 8, .nf (9, 4)]
+
+example : SafeRun demoRun ∧ (pruneArgs demoRun).Pairwise (· ≤ ·) ∧ (∀ r ∈ pruneArgs demoRun, r ∉ skipArgs demoRun) ∧
+    (waitSlots demoRun).Nodup ∧ outcome demoRun = none ∧
+    annOf demoRun = some [(4, (1, 7)), (8, (5, 3)), (8, (5, 2)), (12, (9, 1)), (12, (9, 4))] ∧
+    wakesOfRun demoRun = some [(4, (1, 7)), (8, (5, 3))] ∧
+    queryOf demoRun 12 = some [(9, 1), (9, 4)] ∧ (hist demoRun).root = 9 ∧
+    Connected (hist demoRun) 12 (9, 4) ∧ ¬ Connected (hist demoRun) 12 (8, 6) := by decide
 
 end AgModel.ParentReady
